@@ -70,6 +70,19 @@ def rollover_history(args):
         ops.append({"op": "append_many", "from": "@next", "n": 50, "term": 3, "uid0": uid0 + 600000, "lens": [5], "batch": 0})
         ops.append({"op": "reopen"})
         return finish_rollover(hwd, ops, seed, variant)
+    if variant.startswith("cut-in-closed-short"):
+        # the cut drops the second file and reaches r entries into the closed first one; fewer than r entries are re-appended
+        # (none at all in the "-none" flavour), so the store does NOT roll over again before the restart: the catalogue written
+        # by the truncation itself is what the reopened store has to live with
+        r = rnd.choice([60, 129, 700, 3000])
+        ops.append({"op": "delete_from", "k": "@rollover%+d" % -r})
+        n_again = 0 if variant.endswith("-none") else rnd.randrange(1, r - 20)
+        if n_again:
+            ops.append({"op": "append_many", "from": "@next", "n": n_again, "term": 2, "uid0": uid0 + 500000, "lens": [10, storerig.BLANK, 200], "batch": rnd.choice([0, 7])})
+        ops.append({"op": "reopen"})
+        ops.append({"op": "append_many", "from": "@next", "n": 12, "term": 3, "uid0": uid0 + 600000, "lens": [5], "batch": 0})
+        ops.append({"op": "reopen"})
+        return finish_rollover(hwd, ops, seed, variant)
     if variant == "cut-in-open":
         k = last - rnd.randrange(1, 30)
         ops.append({"op": "delete_from", "k": k})
@@ -200,6 +213,65 @@ def big_record_history(args):
     return res
 
 
+def large_suffix_history(args):
+    """a removed suffix of 0.15 - 4 MB (many records), partly overwritten by a re-append of 25 - 120 % of its bytes with another
+    record size, then reopen: whatever the truncation leaves behind the new end must never be read as entries again, and the
+    kept / re-appended entries must all be there (the clearing of a removed tail is the part of a truncation whose cost grows
+    with the tail, i.e. where a cap or a block-wise shortcut would sit)"""
+    wd, seed, base = args
+    rnd = random.Random(seed)
+    hwd = os.path.join(wd, "lsx%d" % seed)
+    os.makedirs(hwd, exist_ok=True)
+    uid = rnd.randrange(1, 10**6) * 1000
+    ops = []
+    idx = 0
+    for _ in range(rnd.randrange(1, 40)):
+        idx, uid = idx + 1, uid + 1
+        ops.append({"op": "append", "index": idx, "term": 1, "uid": uid, "len": rnd.choice([storerig.BLANK, 7, 300, 5000])})
+    keep = idx
+    total = rnd.choice([150_000, 700_000, 1_300_000, 2_500_000, 4_000_000])
+    rec = rnd.choice([3_000, 30_000, 100_000, 300_000])
+    removed = 0
+    while removed < total:
+        idx, uid = idx + 1, uid + 1
+        n = max(1, int(rec * rnd.uniform(0.7, 1.3)))
+        ops.append({"op": "append", "index": idx, "term": 1, "uid": uid, "len": n})
+        removed += n
+    if rnd.random() < 0.3:
+        ops.append({"op": "reopen"})
+    cut = keep + 1 + (rnd.randrange(0, 3) if rnd.random() < 0.5 else 0)
+    ops.append({"op": "delete_from", "k": cut})
+    frac = rnd.choice([0.25, 0.5, 0.8, 1.0, 1.2])
+    rec2 = rec if frac == 1.0 and rnd.random() < 0.5 else rnd.choice([2_000, 20_000, 60_000, 250_000])
+    idx, again = cut - 1, 0
+    while again < removed * frac:
+        idx, uid = idx + 1, uid + 1
+        n = max(1, int(rec2 * rnd.uniform(0.7, 1.3)))
+        ops.append({"op": "append", "index": idx, "term": 2, "uid": uid, "len": n})
+        again += n
+    ops.append({"op": "read", "lo": max(1, cut - 2), "hi": idx + 2})
+    ops.append({"op": "reopen"})
+    for _ in range(rnd.randrange(1, 4)):
+        idx, uid = idx + 1, uid + 1
+        ops.append({"op": "append", "index": idx, "term": 3, "uid": uid, "len": rnd.choice([storerig.BLANK, 9, 40_000])})
+    ops.append({"op": "reopen"})
+    h = storerig.History(hwd, ops)
+    res = {"seed": seed, "n_ops": len(ops), "features": ["large-suffix-%s-reappend-%d%%" % ("<1MB" if removed < 1_000_000 else ">=1MB", int(frac * 100))]}
+    try:
+        v = h.run()
+    except storerig.SessionDied as e:
+        res["inconclusive"] = "session died: %s" % e
+        shutil.rmtree(hwd, ignore_errors=True)
+        return res
+    res["stats"] = h.stats
+    if v:
+        res["violation"] = {"signature": "%s/large-suffix-partly-overwritten" % v["symptom"],
+                            "witness": {"ops": ops, "ops_summary": {"kept": keep, "removed_bytes": removed, "reappended_bytes": again, "cut": cut, "record_sizes": [rec, rec2]},
+                                        "violation": v, "history_seed": seed}}
+    shutil.rmtree(hwd, ignore_errors=True)
+    return res
+
+
 def drive(pid, tier, seed, bias, n_hist, n_ops, n_roll, rule, salt=0):
     common.build()
     wd = common.workdir(pid.lower())
@@ -212,10 +284,14 @@ def drive(pid, tier, seed, bias, n_hist, n_ops, n_roll, rule, salt=0):
         results = []
         with ThreadPoolExecutor(max_workers=common.NCPU) as ex:
             futs = [ex.submit(one_history, j) for j in jobs]
-            variants = ["batch-ends-at-rollover", "cut-in-closed", "cut-at-closed-file-last", "plain", "cut-in-open", "cut-at-second-file-first"]
-            rfuts = [ex.submit(rollover_history, (wd, seed * 100000 + salt + 40000 + i, base, variants[(i + seed + (2 if salt else 0)) % len(variants)])) for i in range(n_roll)]
+            if bias == "truncate":
+                variants = ["cut-in-closed", "cut-in-closed-short-reappend", "cut-at-closed-file-last", "cut-at-second-file-first", "cut-in-open", "cut-in-closed-short-none"]
+            else:
+                variants = ["batch-ends-at-rollover", "cut-in-closed-short-reappend", "plain", "cut-in-closed", "cut-at-closed-file-last", "cut-in-closed-short-none"]
+            rfuts = [ex.submit(rollover_history, (wd, seed * 100000 + salt + 40000 + i, base, variants[(i + seed) % len(variants)])) for i in range(n_roll)]
             xfuts = [ex.submit(exact_step_history, (wd, seed * 100000 + salt + 60000 + i, base, [0, -1, 1][i % 3])) for i in range(3 if tier == "quick" else 30)]
             xfuts += [ex.submit(big_record_history, (wd, seed * 100000 + salt + 65000 + i, base)) for i in range(3 if tier == "quick" else 24)]
+            xfuts += [ex.submit(large_suffix_history, (wd, seed * 100000 + salt + 67000 + i, base)) for i in range(10 if tier == "quick" else 120)]
             for f in futs + rfuts + xfuts:
                 results.append(f.result())
         absorb(out, results)
